@@ -2,26 +2,26 @@
 # usage: tools/seedall.sh [seed-name ...]   (default: every directory under seeded/)
 # For each confirmed seeded change: scratch worktree of /repo HEAD + the seed's patch, run the quick check of the
 # seed's property against it (VERIF_REPO), record exit code and the first violation reported. Nothing touches /repo.
-# Writes seeded/RESULTS.md. Extra checks per seed can be given as NAME:Cxx (e.g. C01-m1:C04).
+# Writes one row per (seed, check) under seeded/results/ and regenerates seeded/RESULTS.md from all rows. Extra checks per seed can be given as NAME:Cxx (e.g. C01-m1:C04).
 cd "$(dirname "$0")/.."
 seeds=("$@"); [ ${#seeds[@]} -eq 0 ] && seeds=($(ls seeded | grep -E '^C[0-9]+-'))
 out=seeded/RESULTS.md
-{ echo "# Seeded changes vs checks (generated by tools/seedall.sh on /repo $(git -C /repo rev-parse --short HEAD))"; echo; echo "| seed | check | exit | wall | first report |"; echo "|---|---|---|---|---|"; } > $out.tmp
+rows=seeded/results; mkdir -p $rows
 for s in "${seeds[@]}"; do
   name=${s%%:*}; chk=${s##*:}; [ "$chk" == "$s" ] && chk=${name%%-*}
   wt=/tmp/sw_$$_$name
-  git -C /repo worktree add -q --detach "$wt" HEAD || { echo "| $name | $chk | worktree failed | | |" >> $out.tmp; continue; }
+  git -C /repo worktree add -q --detach "$wt" HEAD || { echo "| $name | $chk | worktree failed | | |" > $rows/${name}__$chk.row; continue; }
   if git -C "$wt" apply "$(pwd)/seeded/$name/patch.diff" 2>/tmp/seedall_apply.log; then
     t0=$(date +%s)
     VERIF_REPO="$wt" ./check "$chk" --tier quick --no-evidence > /tmp/seedall_$name.log 2>&1; rc=$?
     t1=$(date +%s)
     first=$(grep -A1 -m1 '^VIOLATION' /tmp/seedall_$name.log | tail -1 | sed 's/|/\//g' | cut -c1-160)
     [ $rc -eq 3 ] && first=$(grep -m1 'HARNESS-ERROR' /tmp/seedall_$name.log | cut -c1-160)
-    echo "| $name | $chk | $rc | $((t1-t0))s | $first |" >> $out.tmp
+    echo "| $name | $chk | $rc | $((t1-t0))s | $first |" > $rows/${name}__$chk.row
     echo "$name $chk rc=$rc $((t1-t0))s"
   else
-    echo "| $name | $chk | patch does not apply | | $(tail -1 /tmp/seedall_apply.log) |" >> $out.tmp
+    echo "| $name | $chk | patch does not apply | | $(tail -1 /tmp/seedall_apply.log) |" > $rows/${name}__$chk.row
   fi
   git -C /repo worktree remove --force "$wt"
 done
-mv $out.tmp $out
+{ echo "# Seeded changes vs checks (tools/seedall.sh; one row per (seed, check) from its latest run; exit 1 = VIOLATION reported, 0 = not reported, 3 = harness error)"; echo; echo "| seed | check | exit | wall | first report |"; echo "|---|---|---|---|---|"; cat $rows/*.row | sort -V; } > $out
